@@ -52,6 +52,29 @@ Proof. intros b H. unfold date_char_ok. apply is_digitb_spec in H. rewrite H. re
 Lemma date_char_ok_not_plus : forall b, date_char_ok b = true -> b <> 43.
 Proof. intros b H ->. vm_compute in H. discriminate. Qed.
 
+Lemma date_char_ascii : forall b, date_char_ok b = true -> b < 128.
+Proof.
+  intros b H. unfold date_char_ok, DATE_SEPS, is_digitb, SEP_SPACE, SEP_SLASH, SEP_COLON in H. cbn [existsb] in H.
+  rewrite !orb_true_iff, andb_true_iff, !N.leb_le, !N.eqb_eq in H. lia.
+Qed.
+Lemma boundary_ascii : forall v k, forallb date_char_ok v = true -> (k <= length v)%nat -> is_boundary v k = true.
+Proof.
+  intros v k H Hk. unfold is_boundary. destruct (nth_error v k) as [c|] eqn:E.
+  - apply nth_error_In in E. rewrite forallb_forall in H. apply H in E. apply date_char_ascii in E.
+    apply negb_true_iff. apply andb_false_iff. left. apply N.leb_gt. exact E.
+  - apply nth_error_None in E. apply Nat.eqb_eq. lia.
+Qed.
+(** once every character passed the date character test the bytes are ASCII, so the slices of
+    the date rule meet no char-boundary panic *)
+Lemma slice_ok : forall v a b, forallb date_char_ok v = true -> (a <= b)%nat -> (b <= length v)%nat ->
+  slice v a b = Some (firstn (b - a) (skipn a v)).
+Proof.
+  intros v a b H Hab Hb. unfold slice.
+  rewrite (boundary_ascii v a H) by lia. rewrite (boundary_ascii v b H) by lia.
+  rewrite (proj2 (Nat.leb_le a b) Hab), (proj2 (Nat.leb_le b (length v)) Hb). reflexivity.
+Qed.
+Ltac sl HA := rewrite (slice_ok _ _ _ HA) by (cbn [length]; lia); cbn [Nat.sub firstn skipn]; reflexivity.
+
 Fixpoint dval (acc : N) (bs : list N) : N :=
   match bs with [] => acc | b :: r => dval (acc * 10 + (b - 48)) r end.
 Lemma dval_ge : forall bs acc, acc <= dval acc bs.
@@ -121,14 +144,15 @@ Proof.
 Qed.
 Definition step_hi (s : dstep) : nat :=
   match s with DAny _ b _ | DSep _ b _ | DRange _ b _ _ _ | DBelow _ b _ _ => b end.
-Lemma dsteps_no_panic : forall v ss k,
-  Forall (fun s => (step_hi s <= length v)%nat) ss -> dsteps_run v ss <> Panic k.
+Definition step_lo (s : dstep) : nat :=
+  match s with DAny a _ _ | DSep a _ _ | DRange a _ _ _ _ | DBelow a _ _ _ => a end.
+Lemma dsteps_no_panic : forall v ss k, forallb date_char_ok v = true ->
+  Forall (fun s => (step_lo s <= step_hi s <= length v)%nat) ss -> dsteps_run v ss <> Panic k.
 Proof.
-  intros v ss k. induction ss as [|s r IH]; intros HF; cbn [dsteps_run]; [discriminate|].
+  intros v ss k HA. induction ss as [|s r IH]; intros HF; cbn [dsteps_run]; [discriminate|].
   inversion HF as [|? ? Hs HF']; subst.
   assert (Hsl : dstep_run v s <> None).
-  { destruct s; cbn [dstep_run step_hi] in *; unfold slice;
-      (destruct (_ <=? length v)%nat eqn:E; [cbn; discriminate|apply Nat.leb_gt in E; lia]). }
+  { destruct s; cbn [dstep_run step_hi step_lo] in *; rewrite (slice_ok _ _ _ HA) by lia; cbn; discriminate. }
   destruct (dstep_run v s) as [[|]|]; [apply IH; exact HF'|discriminate|contradiction].
 Qed.
 
@@ -186,7 +210,7 @@ Proof.
     destruct v as [|b14 v]; [discriminate HL|]. destruct v as [|b15 v]; [discriminate HL|].
     destruct v as [|b16 v]; [discriminate HL|]. destruct v as [|b17 v]; [discriminate HL|].
     destruct v as [|b18 v]; [discriminate HL|]. destruct v as [|b19 v]; [|discriminate HL]. clear HL.
-    apply dsteps_ok in HS. unfold DATE_STEPS in HS.
+    apply dsteps_ok in HS. unfold DATE_STEPS in HS. pose proof HC as HA.
     cbn [forallb] in HC. rewrite !andb_true_iff in HC.
     destruct HC as [C0 [C1 [C2 [C3 [C4 [C5 [C6 [C7 [C8 [C9 [C10 [C11 [C12 [C13 [C14 [C15 [C16 [C17 [C18 _]]]]]]]]]]]]]]]]]]].
     inversion HS as [|? ? S0 HS0]; subst; clear HS. inversion HS0 as [|? ? S1 HS1]; subst; clear HS0.
@@ -195,21 +219,21 @@ Proof.
     inversion HS5 as [|? ? S6 HS6]; subst; clear HS5. inversion HS6 as [|? ? S7 HS7]; subst; clear HS6.
     inversion HS7 as [|? ? S8 HS8]; subst; clear HS7. inversion HS8 as [|? ? S9 HS9]; subst; clear HS8.
     inversion HS9 as [|? ? S10 _]; subst; clear HS9.
-    eapply dany_ok in S0; [|reflexivity]. apply (parse4 _ _ _ _ C0) in S0.
-    eapply dsep_ok in S1; [|reflexivity].
-    eapply drange_ok in S2; [|reflexivity]. destruct S2 as [x2 [P2 R2]].
+    eapply dany_ok in S0; [|sl HA]. apply (parse4 _ _ _ _ C0) in S0.
+    eapply dsep_ok in S1; [|sl HA].
+    eapply drange_ok in S2; [|sl HA]. destruct S2 as [x2 [P2 R2]].
     apply (parse2 _ _ _ _ u8_99 C5) in P2.
-    eapply dsep_ok in S3; [|reflexivity].
-    eapply drange_ok in S4; [|reflexivity]. destruct S4 as [x4 [P4 R4]].
+    eapply dsep_ok in S3; [|sl HA].
+    eapply drange_ok in S4; [|sl HA]. destruct S4 as [x4 [P4 R4]].
     apply (parse2 _ _ _ _ u8_99 C8) in P4.
-    eapply dsep_ok in S5; [|reflexivity].
-    eapply dbelow_ok in S6; [|reflexivity]. destruct S6 as [x6 [P6 R6]].
+    eapply dsep_ok in S5; [|sl HA].
+    eapply dbelow_ok in S6; [|sl HA]. destruct S6 as [x6 [P6 R6]].
     apply (parse2 _ _ _ _ u8_99 C11) in P6.
-    eapply dsep_ok in S7; [|reflexivity].
-    eapply dbelow_ok in S8; [|reflexivity]. destruct S8 as [x8 [P8 R8]].
+    eapply dsep_ok in S7; [|sl HA].
+    eapply dbelow_ok in S8; [|sl HA]. destruct S8 as [x8 [P8 R8]].
     apply (parse2 _ _ _ _ u8_99 C14) in P8.
-    eapply dsep_ok in S9; [|reflexivity].
-    eapply dbelow_ok in S10; [|reflexivity]. destruct S10 as [x10 [P10 R10]].
+    eapply dsep_ok in S9; [|sl HA].
+    eapply dbelow_ok in S10; [|sl HA]. destruct S10 as [x10 [P10 R10]].
     apply (parse2 _ _ _ _ u8_99 C17) in P10.
     injection S1 as ->. injection S3 as ->. injection S5 as ->. injection S7 as ->. injection S9 as ->.
     destruct P2 as [D5 [D6 ->]]. destruct P4 as [D8 [D9 ->]]. destruct P6 as [D11 [D12 ->]].
@@ -229,27 +253,30 @@ Proof.
     inversion F8 as [|? ? Dh1 F9]; subst. inversion F9 as [|? ? Dh2 F10]; subst.
     inversion F10 as [|? ? Dn1 F11]; subst. inversion F11 as [|? ? Dn2 F12]; subst.
     inversion F12 as [|? ? Ds1 F13]; subst. inversion F13 as [|? ? Ds2 _]; subst.
-    unfold date_check. cbn [length Nat.eqb DATE_LENGTH negb].
-    cbn [forallb].
-    rewrite (digit_char_ok y1 Dy1), (digit_char_ok y2 Dy2), (digit_char_ok y3 Dy3), (digit_char_ok y4 Dy4), (digit_char_ok m1 Dm1), (digit_char_ok m2 Dm2), (digit_char_ok d1 Dd1), (digit_char_ok d2 Dd2), (digit_char_ok h1 Dh1), (digit_char_ok h2 Dh2), (digit_char_ok n1 Dn1), (digit_char_ok n2 Dn2), (digit_char_ok s1 Ds1), (digit_char_ok s2 Ds2).
-    replace (date_char_ok 47) with true by reflexivity.
-    replace (date_char_ok 32) with true by reflexivity.
-    replace (date_char_ok 58) with true by reflexivity.
-    cbn [andb negb].
+    assert (HA : forallb date_char_ok [y1; y2; y3; y4; 47; m1; m2; 47; d1; d2; 32; h1; h2; 58; n1; n2; 58; s1; s2] = true).
+    { cbn [forallb].
+      rewrite (digit_char_ok y1 Dy1), (digit_char_ok y2 Dy2), (digit_char_ok y3 Dy3), (digit_char_ok y4 Dy4), (digit_char_ok m1 Dm1), (digit_char_ok m2 Dm2), (digit_char_ok d1 Dd1), (digit_char_ok d2 Dd2), (digit_char_ok h1 Dh1), (digit_char_ok h2 Dh2), (digit_char_ok n1 Dn1), (digit_char_ok n2 Dn2), (digit_char_ok s1 Ds1), (digit_char_ok s2 Ds2).
+      reflexivity. }
+    unfold date_check. cbn [length Nat.eqb DATE_LENGTH negb]. rewrite HA. cbn [negb].
     apply dsteps_ok. unfold DATE_STEPS.
     unfold MONTH_MIN, MONTH_MAX, DAY_MIN, DAY_MAX, HOUR_LIM, MINUTE_LIM, SECOND_LIM, SEP_SLASH, SEP_SPACE, SEP_COLON.
-    repeat constructor.
-    + eapply dany_ok; [reflexivity|]. apply parse4; [apply digit_char_ok; assumption|].
+    repeat apply Forall_cons; try apply Forall_nil.
+    + eapply dany_ok; [sl HA|]. apply parse4; [apply digit_char_ok; assumption|].
       repeat (constructor; [assumption|]); constructor.
-    + eapply drange_ok; [reflexivity|]. exists (two m1 m2). split; [|lia].
+    + eapply dsep_ok; [sl HA|]. reflexivity.
+    + eapply drange_ok; [sl HA|]. exists (two m1 m2). split; [|lia].
       apply parse2; [exact u8_99|apply digit_char_ok; assumption|tauto].
-    + eapply drange_ok; [reflexivity|]. exists (two d1 d2). split; [|lia].
+    + eapply dsep_ok; [sl HA|]. reflexivity.
+    + eapply drange_ok; [sl HA|]. exists (two d1 d2). split; [|lia].
       apply parse2; [exact u8_99|apply digit_char_ok; assumption|tauto].
-    + eapply dbelow_ok; [reflexivity|]. exists (two h1 h2). split; [|lia].
+    + eapply dsep_ok; [sl HA|]. reflexivity.
+    + eapply dbelow_ok; [sl HA|]. exists (two h1 h2). split; [|lia].
       apply parse2; [exact u8_99|apply digit_char_ok; assumption|tauto].
-    + eapply dbelow_ok; [reflexivity|]. exists (two n1 n2). split; [|lia].
+    + eapply dsep_ok; [sl HA|]. reflexivity.
+    + eapply dbelow_ok; [sl HA|]. exists (two n1 n2). split; [|lia].
       apply parse2; [exact u8_99|apply digit_char_ok; assumption|tauto].
-    + eapply dbelow_ok; [reflexivity|]. exists (two s1 s2). split; [|lia].
+    + eapply dsep_ok; [sl HA|]. reflexivity.
+    + eapply dbelow_ok; [sl HA|]. exists (two s1 s2). split; [|lia].
       apply parse2; [exact u8_99|apply digit_char_ok; assumption|tauto].
 Qed.
 
@@ -257,9 +284,9 @@ Lemma date_check_no_panic : forall v k, date_check v <> Panic k.
 Proof.
   intros v k. unfold date_check.
   destruct (length v =? DATE_LENGTH)%nat eqn:HL; [|discriminate]. cbn [negb].
-  destruct (forallb date_char_ok v); [|discriminate]. cbn [negb].
-  apply dsteps_no_panic. apply Nat.eqb_eq in HL. rewrite HL. unfold DATE_STEPS, DATE_LENGTH.
-  repeat constructor; cbn [step_hi]; lia.
+  destruct (forallb date_char_ok v) eqn:HA; [|discriminate]. cbn [negb].
+  apply dsteps_no_panic; [exact HA|]. apply Nat.eqb_eq in HL. rewrite HL. unfold DATE_STEPS, DATE_LENGTH.
+  repeat apply Forall_cons; try apply Forall_nil; cbn [step_hi step_lo]; lia.
 Qed.
 
 Lemma date_specb_spec : forall v, date_specb v = true <-> date_spec v.
